@@ -35,6 +35,7 @@ TRUSTED = [
     "translator/scope_sets.py for the two set-to-list conversions the model mirrors (Gen/SetUses.v)",
     "the lexical reference interpreter props/scope_progs.py (written from docs/api.rst and Python's scoping rules), "
     "the generator and the harness; CPython as executor of the compiled programs",
+    sc.DEVIATION_TRUST,
 ]
 
 WITNESSES = [
